@@ -57,6 +57,7 @@ class LibRaised(Exception):
 
 
 RETRIED = [0]
+ARG_MUT = []        # (function name, argument index, max change): arrays handed to a dynamics function are the caller's
 
 
 def call(fn, f, *a):
@@ -65,7 +66,12 @@ def call(fn, f, *a):
     run of another check (observed: FileNotFoundError out of a kernel's first call), which is not the library's doing;
     a defect of the library raises again."""
     try:
-        return f(*[x.copy() if isinstance(x, np.ndarray) else x for x in a])
+        cp = [x.copy() if isinstance(x, np.ndarray) else x for x in a]
+        out = f(*cp)
+        for i, (x, y) in enumerate(zip(a, cp)):
+            if isinstance(x, np.ndarray) and not (x.shape == y.shape and np.array_equal(x, y, equal_nan=True)):
+                ARG_MUT.append((fn, i, float(np.abs(np.asarray(x, float) - np.asarray(y, float)).max()) if x.shape == y.shape else -1.0))
+        return out
     except Exception:  # noqa: BLE001
         RETRIED[0] += 1
     try:
@@ -363,6 +369,15 @@ def chain_state(ch, s, V, windows):
     return dynlib.state(dynlib.Q_WINDOW if windows else dynlib.Q_VALUES, ch.n, s)
 
 
+def _drain_arg_mut(acc, case):
+    seen = set()
+    while ARG_MUT:
+        fn, i, d = ARG_MUT.pop()
+        if (fn, i) not in seen:
+            seen.add((fn, i))
+            acc.violation("argument_modified", dict(case, fn=fn, arg_index=i), d, 0.0)
+
+
 def run_chain_item(acc, mr, item, seed, windows):
     joints, f, i, s = item
     ch = chain(joints, f, i, seed)
@@ -377,6 +392,7 @@ def run_chain_item(acc, mr, item, seed, windows):
     if np.any(q != 0):
         acc.keys.add(lattice.hash_key((S, Ml, Gl, q)))
     eval_state(acc, mr, base, Ml, Gl, S, q, V, s if isinstance(s, int) else 0)
+    _drain_arg_mut(acc, dict(base, q=q))
     if s == 1 and len(acc.samples) < 2:
         acc.sample({"case": dict(base, q=q), "vectors": {"qd": V.qd[-1], "qdd": V.qdd[-1], "g": V.g[-1], "F": V.F[-1]},
                     "M_port": call("MassMatrix", mr.MassMatrix, q, Ml, Gl, S)})
@@ -544,6 +560,50 @@ def eval_arm_reuse(acc, mr, ac, states, V):
             acc.violation("arm_reused_buffers", dict(base, fn="argument modified"), {"diff": amax(qb - q)}, 0.0)
 
 
+def eval_arm_after_setter(acc, mr, ac, q, V):
+    """History on ONE arm object: every dynamics function is asked once, the inertias are replaced through the public
+    setter, every function is asked again - and must answer for the NEW inertias, as the port does when fed them."""
+    import copy as _copy
+    arm = _copy.deepcopy(ac.arm)
+    n = ac.n
+    Ml, S = ac.Ml, ac.S
+    G2 = np.array(ac.Gl, float) * 1.7
+    G2[:, 0, 0] *= 1.3
+    qd, qdd, g, F = V.qd[n + 1], V.qdd[n + 1], V.g[4], V.F[7]
+    base = {"part": "arms_setter", "arm": ac.name, "q": q}
+
+    def ask():
+        with dynlib_quiet():
+            r = {"massMatrix": flat(arm.massMatrix(q.copy())),
+                 "inverseDynamics": flat(arm.inverseDynamics(q.copy(), qd.copy(), qdd.copy(), g.copy(), F.copy())[0]),
+                 "inverseDynamicsC": flat(arm.inverseDynamicsC(q.copy(), qd.copy(), qdd.copy(), g.copy(), F.copy().reshape(6, 1))[0]),
+                 "inverseDynamicsEMR": flat(arm.inverseDynamicsEMR(q.copy(), qd.copy(), qdd.copy(), g.copy(), F.copy())),
+                 "coriolisGravity": flat(arm.coriolisGravity(q.copy(), qd.copy(), g.copy()))}
+            tau = r["inverseDynamics"].copy()
+            r["forwardDynamicsE"] = flat(arm.forwardDynamicsE(q.copy(), qd.copy(), tau, g.copy(), F.copy())[0])
+        return r
+    try:
+        ask()
+        with dynlib_quiet():
+            arm.setMassProperties(box_spatial_links=G2.copy())
+        got = ask()
+    except Exception as e:
+        acc.violation("raised", dict(base, fn="setter history"), repr(e))
+        return
+    M = call("MassMatrix", mr.MassMatrix, q, Ml, G2, S)
+    tau = call("InverseDynamics", mr.InverseDynamics, q, qd, qdd, g, F, Ml, G2, S)
+    cg = call("VelQuadraticForces", mr.VelQuadraticForces, q, qd, Ml, G2, S) + call("GravityForces", mr.GravityForces, q, g, Ml, G2, S)
+    T = max(1.0, amax(tau))
+    want = {"massMatrix": (flat(M), amax(M)), "inverseDynamics": (flat(tau), T), "inverseDynamicsC": (flat(tau), T),
+            "inverseDynamicsEMR": (flat(tau), T), "coriolisGravity": (flat(cg), T), "forwardDynamicsE": (flat(qdd), max(1.0, amax(qdd)))}
+    for name, (w, sc) in want.items():
+        acc.evals += 1
+        r = amax(got[name] - w) / sc if got[name].shape == w.shape and finite(got[name]) else float("inf")
+        acc.resid("arm_after_inertia_setter", r)
+        if not r <= (1e-6 if name == "forwardDynamicsE" else REL):
+            acc.violation("arm_after_inertia_setter", dict(base, fn=name), {"rel": r}, REL)
+
+
 def work_arms(p):
     mr = _mr()
     acc = lattice.Acc()
@@ -561,8 +621,13 @@ def work_arms(p):
             acc.violation("raised", {"part": "arms", "arm": name, "state": s, "q": q, "fn": e.fn}, repr(e.exc))
         # the physical clauses on the arm's own link frames and inertias (through the port)
         eval_state(acc, mr, {"part": "arms", "arm": name, "state": s, "physical": True}, ac.Ml.copy(), ac.Gl.copy(), ac.S.copy(), q, V, s)
+        _drain_arg_mut(acc, {"part": "arms", "arm": name, "state": s, "q": q})
         if s == 1:
             acc.sample({"case": {"part": "arms", "arm": name, "q": q}})
+            try:
+                eval_arm_after_setter(acc, mr, ac, q, V)
+            except LibRaised as e:
+                acc.violation("raised", {"part": "arms_setter", "arm": name, "fn": e.fn}, repr(e.exc))
             sts = dynlib.arm_states(ac.n, ac.lo, ac.hi, p["tier"])
             try:
                 eval_arm_reuse(acc, mr, ac, [sts[i] for i in sorted({len(sts) - 1 - j * max(1, len(sts) // 9) for j in range(9)} | {0})], V)
@@ -658,6 +723,16 @@ def replay(rec):
     seed, tier = rec.get("seed", 0), rec.get("tier", "quick")
     mr = _mr()
     acc = lattice.Acc(max_viol=100000)
+    if c["part"] == "arms_setter":
+        ac = dynlib.build_arm(c["arm"], seed)
+        V = vecs(ac.n, seed)
+        try:
+            eval_arm_after_setter(acc, mr, ac, np.array(c["q"], float), V)
+        except LibRaised as e:
+            acc.violation("raised", {"part": "arms_setter", "arm": c["arm"], "fn": e.fn}, repr(e.exc))
+        return [v for v in acc.viols if v["clause"] == rec["clause"] and v["case"].get("fn") == c.get("fn")]
+    if rec["clause"] == "argument_modified":
+        pass        # falls through: re-evaluating the item drains ARG_MUT into acc below
     if c["part"] == "arms_reuse":
         ac = dynlib.build_arm(c["arm"], seed)
         V = vecs(ac.n, seed)
